@@ -2,26 +2,20 @@ package rfc4757
 
 import (
 	"bytes"
-	"encoding/hex"
-	"errors"
-	"fmt"
+	"encoding/binary"
 	"io"
+	"unicode/utf16"
 
 	"golang.org/x/crypto/md4"
 )
 
 // StringToKey returns a key derived from the string provided according to the definition in RFC 4757.
 func StringToKey(secret string) ([]byte, error) {
-	b := make([]byte, len(secret)*2, len(secret)*2)
-	for i, r := range secret {
-		u := fmt.Sprintf("%04x", r)
-		c, err := hex.DecodeString(u)
-		if err != nil {
-			return []byte{}, errors.New("character could not be encoded")
-		}
-		// Swap round the two bytes to make little endian as we put into byte slice
-		b[2*i] = c[1]
-		b[2*i+1] = c[0]
+	// The key is the MD4 hash of the password in UTF-16, little endian
+	u := utf16.Encode([]rune(secret))
+	b := make([]byte, len(u)*2, len(u)*2)
+	for i, c := range u {
+		binary.LittleEndian.PutUint16(b[2*i:], c)
 	}
 	r := bytes.NewReader(b)
 	h := md4.New()
